@@ -21,8 +21,8 @@ Per backend `b`:
 
 ## Full statements that are FALSE of the current code (negations proved below, with witnesses)
 
-    theorem c_dtor_export_name      : ∀ k r, k ≠ .root → ∀ x ∈ C.exportRes k r, x ∈ (Spec.dtor .sync k r).toList
     theorem cpp_post_return_name    : ∀ k f, ∀ x ∈ Cpp.exportFn k f, x ∈ Spec.exportsOfFn k f
+    theorem csharp_world_resource   : C# gives a world-level (imported) resource exported-resource glue
     theorem csharp_fs_intrinsic_names : every declaration of `CSharp.addFuturesOrStreams` is a name of the world
     theorem csharp_post_return_name : ∀ k f, asyncOk k f → ∀ x ∈ CSharp.exportFn k f, x ∈ Spec.exportsOfFn k f
     theorem async_selection_sound   : ∀ k f, (C|Rust|Go|MoonBit).funcImport k f ∈ Spec.importsOfFn k f
@@ -85,34 +85,21 @@ theorem c_core_sig (k : Key) (f : Fn) :
   · simp only [Spec.funcExport, Option.some.injEq] at h2; rw [← h2]
   · simp only [Spec.funcExport, Option.some.injEq] at h2; rw [← h2]
 
-/-- FULL STATEMENT (false): C's destructor export carries the component model's name. -/
-def CDtorExportName : Prop :=
-  ∀ k r, k ≠ Key.root → ∀ x ∈ C.exportRes k r, x ∈ (Spec.dtor .sync k r).toList
-
-/-- class `c-dtor-export-snake-case`: resource `my-res` of interface `t:t/i` is exported as
-`t:t/i#[dtor]my_res`; the component model expects `t:t/i#[dtor]my-res`. -/
-theorem c_dtor_export_name_full_false : ¬ CDtorExportName := by
-  intro h
-  have := h (.id ⟨"t", "t", "i", none⟩) "my-res" (by decide)
-    ⟨"t:t/i#[dtor]my_res", [.i32], []⟩ (by decide)
-  revert this; decide
-
-theorem c_dtor_export_name_partial (k : Key) (r : String) (hk : k ≠ .root) (hr : C.snake r = r) :
+/-- C's destructor export carries the component model's name.  (This was FALSE until /repo 97de409:
+the resource name was snake-cased, `t:t/i#[dtor]my_res` for `my-res` — finding F4, class
+`c-dtor-export-snake-case`, refuted here by `c_dtor_export_name_full_false` at the time; the model
+follows the fixed code and the statement is now proved in full.) -/
+theorem c_dtor_export_name (k : Key) (r : String) (hk : k ≠ .root) :
     ∀ x ∈ C.exportRes k r, x ∈ (Spec.dtor .sync k r).toList := by
   intro x hx
   obtain ⟨m, hm⟩ := worldKey_of_ne_root hk
   simp only [C.exportRes, hm, List.mem_cons, List.not_mem_nil, or_false] at hx
   subst hx
-  rw [spec_dtor hm]; simp [C.dtorExport, hr]
+  rw [spec_dtor hm]; simp [C.dtorExport]
 
-/-- single-word lower-case resource names satisfy the hypothesis of `c_dtor_export_name_partial` -/
-theorem c_dtor_single_word (r : String) (h : ∀ c ∈ r.toList, Witverif.Text.Heck.lod c = true) (hne : r ≠ "") :
-    C.snake r = r := C.snake_single_word r h hne
+example : C.exportRes idI "my-res" = [⟨"my-ns:my-pkg/my-iface@1.2.3#[dtor]my-res", [.i32], []⟩] := by decide
 
-example : C.snake "res2" = "res2" := by decide
-example : C.exportRes idI "res" = [⟨"my-ns:my-pkg/my-iface@1.2.3#[dtor]res", [.i32], []⟩] := by decide
-
-theorem c_world_sound (w : World) (hw : w.WF asyncOk C.okRes) :
+theorem c_world_sound (w : World) (hw : w.WF asyncOk (fun _ _ => True)) :
     (∀ d ∈ C.emit.imports w, d.imp ∈ Spec.allImports w) ∧ (∀ x ∈ C.emit.exports w, x ∈ Spec.allExports w) :=
   ⟨Emit.imports_sound C.sound w hw, Emit.exports_sound C.sound w hw⟩
 
@@ -368,7 +355,17 @@ theorem csharp_core_sig (k : Key) (f : Fn) :
   · simp only [Spec.funcExport, Option.some.injEq] at h2; rw [← h2]
   · simp only [Spec.funcExport, Option.some.injEq] at h2; rw [← h2]
 
-theorem csharp_world_sound (w : World) (hw : w.WF CSharp.okFn (fun _ _ => True)) :
+/-- class `csharp-world-resource-treated-as-exported`: `world foo { resource x; export return-resource: func() -> x; }`
+— `x` is an *imported* type of the world, yet as soon as the world exports a function C# emits the
+exported-resource glue for it: the export `[dtor]x` (silently ignored by the encoder) and the imports
+`[export]$root` `[resource-new]x` / `[resource-rep]x` (rejected: "not a local resource"). -/
+theorem csharp_world_resource_full_false :
+    let w : World := ⟨[.rtype "x"], [.func (fn .free "" "return-resource" false false ⟨false, [], some .own⟩)]⟩
+    (⟨"[dtor]x", [.i32], []⟩ : Exp) ∈ CSharp.emit.exports w ∧ (⟨"[dtor]x", [.i32], []⟩ : Exp) ∉ Spec.allExports w ∧
+    (⟨"[export]$root", "[resource-new]x", [.i32], [.i32]⟩ : Imp) ∈ (CSharp.emit.imports w).map (·.imp) ∧
+    (⟨"[export]$root", "[resource-new]x", [.i32], [.i32]⟩ : Imp) ∉ Spec.allImports w := by decide
+
+theorem csharp_world_sound (w : World) (hw : w.WF CSharp.okFn (fun _ _ => True) CSharp.okWorld) :
     (∀ d ∈ CSharp.emit.imports w, d.imp ∈ Spec.allImports w) ∧ (∀ x ∈ CSharp.emit.exports w, x ∈ Spec.allExports w) :=
   ⟨Emit.imports_sound CSharp.sound w hw, Emit.exports_sound CSharp.sound w hw⟩
 
@@ -412,7 +409,8 @@ private def exW : World :=
     .func (fn .free "" "run" true true ⟨false, [.list .u8], some (.list .u8)⟩)]⟩
 
 /-- the example world satisfies the side conditions of `c_world_sound` (non-vacuity) -/
-theorem example_world_wf : exW.WF asyncOk C.okRes where
+theorem example_world_wf : exW.WF asyncOk (fun _ _ => True) where
+  world := trivial
   ifaceKey := by
     intro it hit i h
     simp only [exW, List.cons_append, List.nil_append, List.mem_cons, List.not_mem_nil, or_false] at hit
@@ -432,9 +430,7 @@ theorem example_world_wf : exW.WF asyncOk C.okRes where
     intro it hit i h r hr
     simp only [exW, List.mem_cons, List.not_mem_nil, or_false] at hit
     rcases hit with rfl | rfl <;> simp_all
-    subst h
-    simp only [List.mem_cons, List.not_mem_nil, or_false] at hr
-    subst hr; show C.snake "res" = "res"; decide
+
 
 example : (∀ d ∈ C.emit.imports exW, d.imp ∈ Spec.allImports exW) ∧ (∀ x ∈ C.emit.exports exW, x ∈ Spec.allExports exW) :=
   c_world_sound exW example_world_wf
